@@ -169,7 +169,9 @@ fn duplicate_defects(case: &Case, out: &mut Vec<Defect>) {
 
 fn inline_cycle_defects(max_n: usize, out: &mut Vec<Defect>) {
     for sigil in SIGILS {
+      for placement in 0..3usize {
         for n in 1..=max_n {
+            // placement of the back edge: 0 = plain element, 1 = the &rest tail of a call to a defun, 2 = nested inside a list inside that tail
             let mk = |back: Option<(usize, usize)>| -> Prog {
                 let mut helpers = vec![];
                 for i in 0..n {
@@ -177,12 +179,22 @@ fn inline_cycle_defects(max_n: usize, out: &mut Vec<Defect>) {
                     if i + 1 < n {
                         items.push(E::call(&format!("I{}", i + 1), vec![E::prim("+", vec![E::v("X"), E::int(1)])]));
                     }
-                    if let Some((from, to)) = back {
-                        if from == i {
-                            items.push(E::call(&format!("I{}", to), vec![E::prim("r", vec![E::v("X")])]));
+                    // the same shape with and without the back edge: the twin passes plain X where the cycle would call back
+                    if back.map(|b| b.0 == i).unwrap_or(false) || (back.is_none() && i + 1 == n) {
+                        let inner = match back {
+                            Some((_, to)) => E::call(&format!("I{}", to), vec![E::prim("r", vec![E::v("X")])]),
+                            None => E::prim("r", vec![E::v("X")]),
+                        };
+                        match placement {
+                            0 => items.push(inner),
+                            1 => items.push(E::Call("HD".into(), vec![E::v("X")], Some(Box::new(inner)))),
+                            _ => items.push(E::Call("HD".into(), vec![E::v("X")], Some(Box::new(E::List(vec![E::int(5), inner]))))),
                         }
                     }
                     helpers.push(Helper::Fun { name: format!("I{}", i), inline: true, params: Pat::list(vec![Pat::n("X")]), body: E::List(items) });
+                }
+                if placement > 0 {
+                    helpers.push(Helper::Fun { name: "HD".into(), inline: false, params: Pat::list_tail(vec![Pat::n("P")], Pat::n("R")), body: E::prim("c", vec![E::v("P"), E::v("R")]) });
                 }
                 Prog { sigil: Some(sigil), params: Pat::list(vec![Pat::n("A")]), helpers, body: E::call("I0", vec![E::v("A")]) }
             };
@@ -191,10 +203,11 @@ fn inline_cycle_defects(max_n: usize, out: &mut Vec<Defect>) {
                 for to in 0..=from {
                     let p = mk(Some((from, to)));
                     let names: Vec<String> = (to..=from).map(|i| format!("I{}", i)).collect();
-                    out.push(Defect { class: format!("inline-cycle/length{}", from - to + 1), text: p.text(), twin: twin.clone(), sigil, must_name: names });
+                    out.push(Defect { class: format!("inline-cycle/length{}/{}", from - to + 1, ["plain", "in-rest-tail", "nested-in-rest-tail"][placement]), text: p.text(), twin: twin.clone(), sigil, must_name: names });
                 }
             }
         }
+      }
     }
 }
 
